@@ -18,7 +18,7 @@ def _pool(prop, focus, rule, required):
 
     def run(tier, seed, budget_s, jobs):
         return runner.run_check(
-            lambda: poolcheck.PoolScenario(focus), "pool", prop, prop, tier, seed, budget_s, jobs,
+            lambda: poolcheck.PoolScenario(focus, tier), "pool", prop, prop, tier, seed, budget_s, jobs,
             level="exploration", rule=rule,
             assumptions=[
                 "small-scope: pools of at most 3 workers, at most 3 client threads, at most ~9 operations per thread",
@@ -90,7 +90,8 @@ REGISTRY["C16"] = {"budget": {"quick": 30, "thorough": 600}, "run": _fut()}
 def _pool_scn(body):
     from . import poolcheck
 
-    return poolcheck.PoolScenario(None)
+    a = (body or {}).get("scenario_args") or {}
+    return poolcheck.PoolScenario(a.get("focus"), a.get("tier", "quick"))
 
 
 def _fut_scn(body):
@@ -232,8 +233,8 @@ def _c19():
         return runner.run_check(
             lambda: scn, "client-c19", "C19", "C19", tier, seed, budget_s, jobs,
             level="fault_enumeration",
-            rule=("every fault script up to length %d over the 11-symbol alphabet of the property (scripts ending in a healthy symbol are "
-                  "identified with their prefix) x {TCP, Unix} x {write to a closed peer seen as EOF, as reset, as EPIPE} is run once "
+            rule=("every fault script up to length %d over the alphabet of the property (scripts ending in a healthy symbol are "
+                  "identified with their prefix; 'bodiless' appears as a 204 and as a length-less 502 on a kept-open connection) x {TCP, Unix} x {write to a closed peer seen as EOF, as reset, as EPIPE} is run once "
                   "(run indices 0..%d, exhaustive: true when all were executed); further indices are seeded random scripts of length 1-12 "
                   "with random segmentation and HTTP/1.0 peers under random schedules. distinct = distinct digest of (schedule, history, "
                   "network choices); non-trivial = the script contains at least one symbol" % (scn.maxlen, scn.must_cover - 1)),
@@ -277,7 +278,7 @@ def _c18():
             assumptions=["one definition per header name inside one dictionary (two spellings of one name in the same dict have no 'most recent')",
                          "header values are latin-1 encodable", "sampling, not exhaustive"],
             real_components=REAL_CLI, stub_components=STUB_CLI,
-            required_probes=["block_exit_normal", "block_exit_exception", "fault_refuse", "fault_reset", "fault_5xx-len", "fault_truncated",
+            required_probes=["block_exit_normal", "block_exit_exception", "base_exception_exit", "fault_refuse", "fault_reset", "fault_5xx-len", "fault_truncated",
                              "user_agent_overridden", "nesting_3_or_more", "same_name_in_other_case", "protected_name_pushed", "notify", "batch"])
 
     return run
@@ -313,7 +314,7 @@ def _c17():
                          "framing, URL and scheme clauses are functions of the input; the simulator contributes the wire observation point, segmentation and the chunk knob"],
             real_components=REAL_CLI + ["jsonrpclib.SimpleJSONRPCServer do_POST / CGI handler - real code"], stub_components=STUB_CLI,
             required_probes=["mode_client", "mode_server", "mode_cgi", "mode_scheme", "backend_raw_utf8", "encoding_gzip", "encoding_chunked",
-                             "multibyte_response_beyond_first_read", "multibyte_request_with_small_read_chunk", "query_string",
+                             "multibyte_response_beyond_first_read", "multibyte_request_with_small_read_chunk", "whitespace_only_read_block", "query_string",
                              "percent_escape_in_path", "family_unix", "short_reads"])
 
     return run
